@@ -120,20 +120,40 @@ func (g *genState) style(k int, inline bool, depth int) (css string, isInlineBlo
 		fmt.Fprintf(&sb, "width:%dpx;", r.Range(20, 80))
 		g.tag("float")
 	}
+	opacity := r.Chance(1, 9)
+	singular := false
 	if r.Chance(1, 9) {
-		fmt.Fprintf(&sb, "opacity:%.3f;", float64(k)/1000)
-		g.tag("opacity")
-	}
-	if r.Chance(1, 9) {
-		switch r.Intn(3) {
+		switch r.Intn(4) {
 		case 0:
 			fmt.Fprintf(&sb, "transform:translate(%dpx,0);", k)
 		case 1:
 			fmt.Fprintf(&sb, "transform:translate(%dpx,0) scale(1);", k)
-		default:
+		case 2:
 			fmt.Fprintf(&sb, "transform:rotate(0deg) translate(%dpx);", k)
+		default:
+			// a matrix that is not invertible (draw.go:252-258: the early return of
+			// drawStackingContext): the box and its sub-tree are not painted, everything
+			// else is.  Only forms whose float32 determinant is exactly 0 (linear parts
+			// with small integer entries, no rotation).
+			singular = true
+			fmt.Fprintf(&sb, "transform:%s;", vlib.Pick(r, []string{
+				"scale(0)", "scale(0,1)", "scale(1,0)", fmt.Sprintf("translate(%dpx,0) scale(0)", k), fmt.Sprintf("scale(0) translate(%dpx,0)", k),
+				"matrix(1,2,2,4,0,0)", fmt.Sprintf("matrix(2,4,1,2,%d,0)", k), "matrix(0,0,0,0,0,0)", "scale(1,0) scale(0,1)", "matrix(1,1,1,1,3,3) scale(2)"}))
+			g.tag("singular-transform")
+			// the usual hidden state is `opacity:0; transform:scale(0)`: the early return
+			// happens AFTER the opacity group was created
+			if r.Bool() {
+				opacity = true
+			}
 		}
 		g.tag("transform")
+	}
+	if opacity {
+		fmt.Fprintf(&sb, "opacity:%.3f;", float64(k)/1000)
+		g.tag("opacity")
+	}
+	if singular && r.Chance(1, 4) {
+		overflow = true
 	}
 	if overflow {
 		sb.WriteString("overflow:" + vlib.Pick(r, []string{"hidden", "hidden", "auto", "scroll"}) + ";")
